@@ -1,5 +1,6 @@
 import OdcGeo.Drv.C19
 import OdcGeo.Model.C19Glue
+import OdcGeo.Model.C19Alias
 /-!
 Driver for the glue layer of C19 (`c19 glue <op> …`); everything else goes to `Drv.C19.run`.
 
@@ -207,6 +208,54 @@ def runGlue (args : List String) : Option String :=
       (← parseBool? fx) (← parseBool? fy)))
   | _ => none
 
+
+/-! ### sharing of CRS instances, `authority`, the NaN clean-up (`c19 alias …`) -/
+
+def parseAOp? (s : String) : Option AOp :=
+  match s.splitOn ";" with
+  | ["n", i, obj, sys, epsg, str, ie] => do
+    let c ← parseCrs? s!"{obj};{sys};{epsg};{str}"
+    let c ← c
+    let ie ← parseOpt? parseNat? ie
+    pure (.new (← parseNat? i) { c with info := { c.info with epsg := ie } })
+  | ["c", j, i] => do pure (.copy (← parseNat? j) (← parseNat? i))
+  | ["h", h, i] => do pure (.hold (← parseNat? h) (← parseNat? i))
+  | ["hn", h] => do pure (.holdNone (← parseNat? h))
+  | ["rh", h2, h] => do pure (.rehold (← parseNat? h2) (← parseNat? h))
+  | ["r", i] => do pure (.read (← parseNat? i))
+  | ["e", a, b] => do pure (.eq (← parseNat? a) (← parseNat? b))
+  | _ => none
+
+def fmtAOut : AOut → String
+  | .unit => "-" | .epsg e => "e:" ++ fmtOpt toString e | .bool b => fmtBool b | .err => "ERR"
+
+def parseNanNum? (s : String) : Option (Option Rat) := parseOpt? parseRat? s
+
+def runAlias (args : List String) : Option String :=
+  match args with
+  | ["run", ops] => do
+    let ops ← parseList? parseAOp? ops
+    pure (",".intercalate ((arun {} ops).2.map fmtAOut))
+  | ["auth", c, ie, ta] => do
+    let c ← parseCrs? c
+    let c ← c
+    let _ie ← parseOpt? parseNat? ie
+    let ta ← if ta = "N" then some none else
+      match ta.splitOn "~" with
+      | [a, code] => some (some (a, code))
+      | _ => none
+    let r := authorityOf c ta
+    pure s!"{r.1}~{r.2}"
+  | ["nan", "S", x, y] => do
+    match nanClean (.scalars (← parseNanNum? x) (← parseNanNum? y)) with
+    | .scalars a b => pure s!"S {fmtOpt fmtRat a} {fmtOpt fmtRat b}"
+    | _ => none
+  | ["nan", "A", xs, ys] => do
+    match nanClean (.arrays (← parseList? parseNanNum? xs) (← parseList? parseNanNum? ys)) with
+    | .arrays a b => pure s!"A {fmtList (fmtOpt fmtRat) a} {fmtList (fmtOpt fmtRat) b}"
+    | _ => none
+  | _ => none
+
 /-- `pair atiles <T by bx ty tx | V y x> <same>`: the two representations of a tiling compared with each other -/
 def runPairAnyTiles (xs : List String) : Option String := do
   let (a, rest) ← parseAnyTiles? xs
@@ -221,6 +270,7 @@ def runPairAnyTiles (xs : List String) : Option String := do
 def runAll (args : List String) : Option String :=
   match args with
   | "glue" :: rest => runGlue rest
+  | "alias" :: rest => runAlias rest
   | "pair" :: "atiles" :: rest => runPairAnyTiles rest
   | _ => run args
 
